@@ -284,3 +284,17 @@ reg("C05", [
     "record 2 is an A record with root owner; its position is computed by an RFC 1035 envelope walker (12 + 11 + RDLENGTH)",
     "names inside RDATA are abstracted by the Name::parse contract (discharged by C06.contract); OPT is excluded (it is lifted out of the section, see C09)",
 ])
+
+reg("C10", [
+    M("C10", "reject", "rr_reject",
+      "11 rule-breaking encodings (LOC version != 0; SVCB/HTTPS keys and NSEC windows not strictly increasing; inner length of "
+      "TXT/HINFO/NAPTR/CAA/OPT/SVCB/NSEC running 1..3 bytes past RDLENGTH), every other byte symbolic",
+      ["ResourceRecord::parse", "RData::parse", "LOC|SVCB|HTTPS|NSEC|TXT|HINFO|NAPTR|CAA|OPT ::parse", "CharacterString::parse"]),
+], [])
+
+reg("C09", [
+    M("C09", "opt_record", "rr_roundtrip",
+      "OPT pseudo-record alone: udp size, version, TTL (VERSION in bits 23..16), 0-2 (3) options with symbolic codes and data of 0..5 bytes "
+      "(incl. a trailing empty option): written bytes == RFC 6891 layout, parse(reference bytes) == original",
+      ["<ResourceRecord as WireFormat>::{write_to,parse,len}", "OPT::{parse,write_to,len}"], params={'only': ['OPT']}),
+], [])
